@@ -56,5 +56,9 @@ def mulPow2NegRef (x : Int) (k : Nat) : Int :=
   let bias := w64 (shlW 64 1 (k - 1) - signBit)
   sarI (w64 (x + bias)) k
 
-/-- `nfc_mul_pow2_assign` with a negative power on `i128`: plain arithmetic shift (floor). -/
-def mulPow2Neg128 (x : Int) (k : Nat) : Int := sarI x k
+/-- `nfc_mul_pow2_assign` with a negative power on `i128` (poulpy commit eb1c1ea: rounding shift,
+the `i128` twin of `mulPow2NegRef`): `(x.wrapping_add((1 << (k-1)) - sign_bit)) >> k`. -/
+def mulPow2Neg128 (x : Int) (k : Nat) : Int :=
+  let signBit : Int := (sarI x 127) % 2           -- (x >> 127) & 1
+  let bias := wrapN 128 (shlW 128 1 (k - 1) - signBit)
+  sarI (wrapN 128 (x + bias)) k
